@@ -1,4 +1,5 @@
 import RotondaModel.Proofs.Ingress
+import RotondaModel.Generated.Ingress
 /-!
 # C14 — ingress ids are unique per live source and stable across reconnects
 
@@ -92,6 +93,43 @@ theorem updateRet_none (r : Register) (id : Nat) : updateRet r id = none := by
   split
   · exact lookup_erase_self _ _
   · assumption
+
+/-! ### Tie to the source text (extraction, `tools/extract_ingress.py`) -/
+
+/-- Field access by the Rust field name. -/
+def Info.field (i : Info) : String → Option Nat
+  | "unit_name" => i.unitName
+  | "parent_ingress" => i.parent
+  | "remote_addr" => i.addr
+  | "remote_asn" => i.asn
+  | "rib_type" => i.ribType
+  | "filename" => i.filename
+  | "name" => i.name
+  | "desc" => i.desc
+  | _ => none
+
+/-- The struct's field list and the list of `update_field!` lines extracted from ingress.rs are
+    both the model's field list (a field added to the struct but forgotten in `update_info`
+    breaks this), `register()` is a single `fetch_add`, the counter starts at 1. -/
+theorem C14_extracted_shape :
+    Generated.structFields = Info.fieldNames ∧ Generated.mergedFields = Info.fieldNames
+    ∧ Generated.registerIsSingleFetchAdd = true ∧ Generated.initialSerial = Register.new.serial := by
+  decide
+
+/-- The model's merge is `update_field!` on every extracted field. -/
+theorem C14_extracted_merge (old new : Info) :
+    ∀ f ∈ Generated.mergedFields, (old.merge new).field f = updField (old.field f) (new.field f) := by
+  simp [Generated.mergedFields, Info.field, Info.merge]
+
+/-- The model's match conditions are exactly the extracted `is_some()` / `==` lists of
+    `find_existing_peer` and `find_existing_bmp_router`. -/
+theorem C14_extracted_match (q i : Info) :
+    matchesLvl .peer q i = (Generated.peerRequired.all (fun f => (i.field f).isSome)
+                            && Generated.peerCompared.all (fun f => i.field f == q.field f))
+    ∧ matchesLvl .router q i = (Generated.routerRequired.all (fun f => (i.field f).isSome)
+                            && Generated.routerCompared.all (fun f => i.field f == q.field f)) := by
+  simp [matchesLvl, Generated.peerRequired, Generated.peerCompared, Generated.routerRequired,
+        Generated.routerCompared, Info.field, Bool.and_assoc]
 
 /-! ## Clause 3 — the children reported for a parent are exactly the sources registered under it -/
 
